@@ -1,0 +1,49 @@
+// SPDX-FileCopyrightText: 2023 The Pion community <https://pion.ly>
+// SPDX-License-Identifier: MIT
+
+//go:build verif
+
+package connctx
+
+// Machine-checked contracts for /verif (govc).  Comment-only.
+
+//@ arith int
+//@ field connCtx closed signal
+
+// C17, per context-aware operation: exactly one wrapped operation per call (none on a closed conn); its byte count is
+// returned unchanged, its error is not swallowed; the watcher goroutine (contract <op>$1, joined at wg.Wait) may force a
+// past deadline on the wrapped connection while the operation runs and puts the zero deadline back before it ends, so
+// after the call the wrapped conn carries its old deadline or none (unless setting a deadline failed: dlFail).
+//@ func (c *connCtx) ReadContext$1()
+//@   requires c != nil && c.nextConn != nil && ctx != nil && done != nil
+//@   modifies dlRead, dlFail
+//@   ensures [restore] !dlFail ==> dlRead[ref(c.nextConn)] == old(dlRead[ref(c.nextConn)]) || dlRead[ref(c.nextConn)] == 0
+//@   ensures [others] forall k mathint :: {dlRead[k]} k != ref(c.nextConn) ==> dlRead[k] == old(dlRead[k])
+//@   ensures [mono] old(dlFail) ==> dlFail
+
+//@ func (c *connCtx) ReadContext(ctx context.Context, b []byte) (n int, err error)
+//@   requires c.nextConn != nil && ctx != nil && c.closed != nil
+//@   modifies b[*], ioN, ioLastN, ioLastNil, dlRead, dlFail
+//@   ensures [once] ioN == old(ioN) || ioN == old(ioN) + 1
+//@   ensures [n] ioN == old(ioN) + 1 ==> n == ioLastN
+//@   ensures [closed] ioN == old(ioN) ==> n == 0 && err != nil
+//@   ensures [error] ioN == old(ioN) + 1 && !ioLastNil ==> err != nil
+//@   ensures [clean] !dlFail ==> dlRead[ref(c.nextConn)] == old(dlRead[ref(c.nextConn)]) || dlRead[ref(c.nextConn)] == 0
+
+//@ func (c *connCtx) WriteContext$1()
+//@   requires c != nil && c.nextConn != nil && ctx != nil && done != nil
+//@   modifies dlWrite, dlFail
+//@   ensures [restore] !dlFail ==> dlWrite[ref(c.nextConn)] == old(dlWrite[ref(c.nextConn)]) || dlWrite[ref(c.nextConn)] == 0
+//@   ensures [others] forall k mathint :: {dlWrite[k]} k != ref(c.nextConn) ==> dlWrite[k] == old(dlWrite[k])
+//@   ensures [mono] old(dlFail) ==> dlFail
+
+//@ func (c *connCtx) WriteContext(ctx context.Context, b []byte) (n int, err error)
+//@   requires c.nextConn != nil && ctx != nil && c.closed != nil
+//@   modifies ioN, ioLastN, ioLastNil, dlWrite, dlFail
+//@   ensures [once] ioN == old(ioN) || ioN == old(ioN) + 1
+//@   ensures [n] ioN == old(ioN) + 1 ==> n == ioLastN
+//@   ensures [closed] ioN == old(ioN) ==> n == 0 && err != nil
+//@   ensures [error] ioN == old(ioN) + 1 && !ioLastNil ==> err != nil
+//@   ensures [clean] !dlFail ==> dlWrite[ref(c.nextConn)] == old(dlWrite[ref(c.nextConn)]) || dlWrite[ref(c.nextConn)] == 0
+
+//@ property C17: connCtx.ReadContext$1, connCtx.ReadContext, connCtx.WriteContext$1, connCtx.WriteContext
